@@ -192,7 +192,7 @@ def shared_delay_specs():
 
 
 def run(ctx):
-    specs = FAM.single_reaction_specs(ctx.tier) + FAM.rule_specs(ctx.tier) + FAM.multi_specs(ctx.tier) + shared_delay_specs() + FAM.big_specs(ctx.tier) + FAM.magnitude_specs()
+    specs = FAM.single_reaction_specs(ctx.tier) + FAM.rule_specs(ctx.tier) + FAM.multi_specs(ctx.tier) + shared_delay_specs() + FAM.big_specs(ctx.tier) + FAM.magnitude_specs() + FAM.short_name_specs()
     items = [(s, st) for s in specs for st in (False, True)]
     pmap(check, items, ctx, nshards=256)
     ctx.bounds = dict(models=len(specs), round_trips=len(items))
